@@ -10,7 +10,7 @@ from ..lang import CMP_OPS
 PROPERTY = "C20"
 LEVEL = "exploration"
 TIMEOUT = 300
-BUDGET = {"quick": 150, "thorough": 1500}
+BUDGET = {"quick": 600, "thorough": 3600}
 RULE = ("Programs with any mix of consumed and unconsumed top-level names, aliases of one value under several "
         "names, and outputs produced by constants, arithmetic, deciders, memories, wire merges, function returns and "
         "bundles are compiled by the real compiler with optimisation on and off. For every top-level name that no "
